@@ -45,6 +45,12 @@ def bundle_plan(pg):
         objs = streams[stream]
         if rng.random() < 0.7:
             body.append(msg(S, "checkpoint"))
+        for o in objs:
+            if pg.specs[o]["kind"] == "assetdet":
+                # a detector that stores its data externally makes its Datum (and, the first time, its Resource) when
+                # it is triggered and hands them over at the first 'read' that follows
+                g = pg.group()
+                body += [msg(S, "trigger", o, group=g), msg(S, "wait", None, group=g)]
         body.append(msg(S, "create", None, name=stream))
         kind = rng.choice(["normal", "normal", "normal", "drop", "empty", "collide", "checkpoint_inside", "configure_inside", "mismatch"])
         if kind == "collide" and "d1" not in objs:
@@ -103,8 +109,13 @@ def cases(seed, tier):
     # a detector whose data key collides with d1's
     specs["dx"] = {"kind": "det", "base": 50.0, "trigger_delay": 0.0, "coef": {}, "keys": ["d1"]}
     specs["sigS"] = {"kind": "signal", "initial": 0}
+    if rng.random() < 0.5:
+        # a detector with externally stored data: its Resource / Datum documents travel with the bundle it is read in
+        specs["ad0"] = {"kind": "assetdet", "trigger_delay": rng.choice([0.0, 0.01]), "keys": ["ad0_image", "ad0_stat"]}
     pg = gen.PlanGen(rng, specs)
     pg.dets = [d for d in pg.dets if d != "dx"]
+    if "ad0" in specs and "ad0" not in pg.dets:
+        pg.dets.append("ad0")
     body = bundle_plan(pg)
     S = pg.S
     case = {
@@ -234,6 +245,9 @@ def check(res):
         elif cmd == "drop" and end == "ok":
             if any(d.d["name"] == "event" for d in docs_at_step.get(e.step, []) if d.seq < e.seq and d.seq > m.seq):
                 out.append(V("drop-emitted-event", "a 'drop' emitted an event"))
+            elif any(m.seq < d.seq < e.seq for d in docs_at_step.get(e.step, [])):
+                names = [d.d["name"] for d in docs_at_step.get(e.step, []) if m.seq < d.seq < e.seq]
+                out.append(V("drop-emitted-document", f"a 'drop' emitted {names}: a dropped bundle emits nothing"))
             bundle = None
         elif cmd == "save" and end == "error":
             # a rejected save (objects differ from the stream's declaration) ends the bundle and emits nothing
